@@ -179,6 +179,124 @@ func TestC05(t *testing.T) {
 		}
 		synctest.Test(t, func(t *testing.T) { c05Run(t, run, sc, run.Rand(i+1<<30)) })
 	}
+	for k := 0; k < run.N(24, 600); k++ {
+		desc := map[string]any{"idx": k, "kind": "slow-command-overlapping-a-host-move"}
+		if !run.Mine(n+k, desc) {
+			continue
+		}
+		synctest.Test(t, func(t *testing.T) { c05Overlap(t, run, k, run.Rand(n+k)) })
+	}
+}
+
+// c05Overlap: a command on service A that waits long for its targets (a rollout deploy, or a deploy
+// that keeps A's hosts) overlaps two quick deploys: A moves from host X to host Y, then B claims X.
+// When everything has returned every pair has exactly one owner: what answers for X, for Y, and
+// what a further deploy claiming X or Y is told must agree with the results the commands reported.
+func c05Overlap(t *testing.T, run *Run, idx int, rng *rand.Rand) {
+	w := NewWorld(t, WorldOpt{})
+	defer w.Close()
+	run.Eval()
+	fail := func(sig, format string, a ...any) {
+		run.Violate(sig, fmt.Sprintf(format, a...), map[string]any{"idx": idx, "kind": "overlap"}, func() []string { return w.Trace(200) })
+	}
+	X, Y := "x.example", "y.example"
+	pfx := pick(rng, [][]string{nil, {"/api"}, {"/", "/api"}})
+	slowKind := pick(rng, []string{"rollout-deploy", "rollout-deploy", "deploy-same-hosts"})
+	slow := func(name string) {
+		w.AddTarget(name, func(n int, at time.Duration) ProbeAct {
+			if n == 0 {
+				return ProbeAct{Status: 200, Delay: 1500 * time.Millisecond}
+			}
+			return ProbeAct{Status: 200}
+		})
+	}
+	for _, n := range []string{"a0:80", "a1:80", "b0:80", "c0:80"} {
+		w.AddTarget(n, nil)
+	}
+	slow("as:80")
+	so := func(h string) server.ServiceOptions {
+		return server.ServiceOptions{TLSRedirect: true, Hosts: []string{h}, PathPrefixes: pfx}
+	}
+	if c := w.Deploy("A", []string{"a0:80"}, so(X), DefTO, 5*time.Second, time.Second); c.Err != "" {
+		run.Inconclusive("setup: %s", c.Err)
+		return
+	}
+	var slowRec, moveRec, claimRec *CmdRec
+	T := time.Second
+	w.At(T, func() {
+		if slowKind == "rollout-deploy" {
+			slowRec = w.RolloutDeploy("A", []string{"as:80"}, 5*time.Second, time.Second)
+		} else {
+			slowRec = w.Deploy("A", []string{"as:80"}, so(X), DefTO, 5*time.Second, time.Second)
+		}
+	})
+	w.At(T+300*time.Millisecond, func() { moveRec = w.Deploy("A", []string{"a1:80"}, so(Y), DefTO, 5*time.Second, time.Second) })
+	w.At(T+600*time.Millisecond, func() { claimRec = w.Deploy("B", []string{"b0:80"}, so(X), DefTO, 5*time.Second, time.Second) })
+	w.Wait()
+	if slowRec == nil || moveRec == nil || claimRec == nil {
+		run.Inconclusive("commands did not complete")
+		return
+	}
+	for _, c := range []*CmdRec{slowRec, moveRec, claimRec} {
+		if c.Panic != "" {
+			fail("panic", "%s panicked: %s", c.Name, c.Panic)
+			return
+		}
+	}
+	if moveRec.Err != "" {
+		fail("move-rejected", "deploy A --host %s (while a %s of A was waiting for its targets) failed: %s", Y, slowKind, moveRec.Err)
+		return
+	}
+	if claimRec.Err != "" {
+		fail("free-pair-refused", "deploy B --host %s after A had moved to %s was refused: %s", X, Y, claimRec.Err)
+		return
+	}
+	// B was told it owns X. Who owns what now is decided by what a further claimant is told:
+	path := "/"
+	if len(pfx) > 0 {
+		path = pfx[len(pfx)-1] + "/q"
+	}
+	owner := func(h string) string {
+		r := w.Do(Req{ID: "own-" + h, Host: h, Path: path})
+		if r.Status == 200 {
+			return r.Target
+		}
+		return fmt.Sprintf("status %d", r.Status)
+	}
+	ox, oy := owner(X), owner(Y)
+	if ox != "b0:80" {
+		fail("two-owners:routing", "after A moved to %s and B was told it owns %s (a %s of A overlapping both has returned: err=%q), requests for %s are answered by %q", Y, X, slowKind, slowRec.Err, X, ox)
+		return
+	}
+	cx := w.Deploy("C", []string{"c0:80"}, so(X), DefTO, 5*time.Second, time.Second)
+	if cx.Err == "" {
+		fail("accepted-conflicting-deploy:after-overlap", "deploy C --host %s accepted although B owns it", X)
+		return
+	}
+	// Y: owned by A unless the slow command was a deploy with A's old host list that won the race
+	// for the last word (then A legitimately moved back; X is B's, so that deploy must have failed)
+	if slowKind == "deploy-same-hosts" && slowRec.Err == "" {
+		fail("accepted-conflicting-deploy:slow", "deploy A --host %s returned ok at %v although B had been told it owns %s at %v", X, slowRec.Ret, X, claimRec.Ret)
+		return
+	}
+	if !strings.HasPrefix(oy, "a") {
+		fail("owner-lost-its-pair", "A moved to %s (acknowledged) but requests for it are answered by %q", Y, oy)
+		return
+	}
+	// A's list must show one service per pair
+	seen := map[string]string{}
+	for name, d := range w.Router.ListActiveServices() {
+		for _, h := range strings.Split(d.Host, ",") {
+			for _, p := range strings.Split(d.Path, ",") {
+				if other, dup := seen[h+"|"+p]; dup {
+					fail("two-owners:list", "list shows %s %s owned by both %s and %s", h, p, other, name)
+					return
+				}
+				seen[h+"|"+p] = name
+			}
+		}
+	}
+	run.Class(fmt.Sprintf("overlap|%s|pfx%d|slow-err=%v", slowKind, len(pfx), slowRec.Err != ""))
 }
 
 func c05Exec(w *World, op c05Op, id string) c05Out {
